@@ -28,7 +28,7 @@ import (
 const group = "stable.example.com"
 
 // ---------------------------------------------------------------------------------------------
-// fixture: one real operator + handler per (variant, chain length)
+// fixture: one real operator + handler per (variant, layout, chain length)
 // ---------------------------------------------------------------------------------------------
 
 type setup struct {
@@ -79,22 +79,65 @@ func chainRules(variant string, n int) [][2]string {
 	return out
 }
 
-func hookConfig(rules [][2]string) []byte {
+// hookConfig: one kubernetesCustomResourceConversion binding per element of bindings, all for crdName.
+func hookConfig(bindings [][][2]string) []byte {
 	type conv struct {
 		From string `json:"fromVersion"`
 		To   string `json:"toVersion"`
 	}
-	var cs []conv
-	for _, r := range rules {
-		cs = append(cs, conv{r[0], r[1]})
+	var bs []interface{}
+	for i, rules := range bindings {
+		var cs []conv
+		for _, r := range rules {
+			cs = append(cs, conv{r[0], r[1]})
+		}
+		name := "conv"
+		if len(bindings) > 1 {
+			name = fmt.Sprintf("conv-%d", i+1)
+		}
+		bs = append(bs, map[string]interface{}{"name": name, "crdName": crdName, "conversions": cs})
 	}
 	b, _ := json.Marshal(map[string]interface{}{
-		"configVersion": "v1",
-		"kubernetesCustomResourceConversion": []interface{}{
-			map[string]interface{}{"name": "conv", "crdName": crdName, "conversions": cs},
-		},
+		"configVersion":                      "v1",
+		"kubernetesCustomResourceConversion": bs,
 	})
 	return b
+}
+
+// hookLayout spreads the rules of the chain over hooks and conversion bindings.
+//
+//	"perhook": odd steps in hook-a, even steps in hook-b, one conversion binding each;
+//	"split":   ONE hook (hook-a) with TWO conversion bindings for the same crdName (the documented up/down
+//	           layout): odd steps in the first binding, even steps in the second; a chain of one step has its rule
+//	           in the first binding and an unrelated rule in the second. A rule of the non-last binding is needed
+//	           by every request.
+func hookLayout(layout string, rules [][2]string) (map[string][][][2]string, error) {
+	perHook := map[string][][][2]string{}
+	switch layout {
+	case "", "perhook":
+		for k, r := range rules {
+			name := "hook-a"
+			if k%2 == 1 {
+				name = "hook-b"
+			}
+			if perHook[name] == nil {
+				perHook[name] = [][][2]string{nil}
+			}
+			perHook[name][0] = append(perHook[name][0], r)
+		}
+	case "split":
+		bs := [][][2]string{nil, nil}
+		for k, r := range rules {
+			bs[k%2] = append(bs[k%2], r)
+		}
+		if len(bs[1]) == 0 {
+			bs[1] = [][2]string{{full(6), full(7)}} // unrelated to the chain and to the rules of hook-c
+		}
+		perHook["hook-a"] = bs
+	default:
+		return nil, fmt.Errorf("unknown layout %q", layout)
+	}
+	return perHook, nil
 }
 
 const stub = `#!/bin/sh
@@ -102,12 +145,15 @@ if [ "$1" = "--config" ]; then exec cat "$0.json"; fi
 exec "$VERIF_CONV_HOOKBIN" "$0"
 `
 
-func (e *applyEnv) get(variant string, n int) (*setup, error) {
-	key := fmt.Sprintf("%s/%d", variant, n)
+func (e *applyEnv) get(variant, layout string, n int) (*setup, error) {
+	if layout == "" {
+		layout = "perhook"
+	}
+	key := fmt.Sprintf("%s/%s/%d", variant, layout, n)
 	if s, ok := e.setups[key]; ok {
 		return s, nil
 	}
-	dir := filepath.Join(e.work, fmt.Sprintf("apply-%s-%d-%d", strings.ReplaceAll(variant, "+", "_"), n, os.Getpid()))
+	dir := filepath.Join(e.work, fmt.Sprintf("apply-%s-%s-%d-%d", strings.ReplaceAll(variant, "+", "_"), layout, n, os.Getpid()))
 	hooksDir := filepath.Join(dir, "hooks")
 	tmpDir := filepath.Join(dir, "tmp")
 	planDir := filepath.Join(dir, "plan")
@@ -117,21 +163,17 @@ func (e *applyEnv) get(variant string, n int) (*setup, error) {
 		}
 	}
 	rules := chainRules(variant, n)
-	perHook := map[string][][2]string{}
-	for k, r := range rules {
-		name := "hook-a"
-		if k%2 == 1 {
-			name = "hook-b"
-		}
-		perHook[name] = append(perHook[name], r)
+	perHook, err := hookLayout(layout, rules)
+	if err != nil {
+		return nil, err
 	}
 	if strings.HasSuffix(variant, "+d") {
 		// rules that are not on the chain: a back edge, a dead end, an unrelated pair
-		perHook["hook-c"] = [][2]string{
+		perHook["hook-c"] = [][][2]string{{
 			{full(n + 1), full(1)},
 			{short(2), short(8)},
 			{full(8), full(9)},
-		}
+		}}
 	}
 	for name, rs := range perHook {
 		if err := os.WriteFile(filepath.Join(hooksDir, name), []byte(stub), 0o755); err != nil {
@@ -218,7 +260,7 @@ func (e *applyEnv) replayApply(n int, c Case) Result {
 	fail := func(sig, detail string, obs interface{}) Result {
 		return Result{Case: n, OK: false, Sig: sig, Detail: detail, Obs: obs}
 	}
-	s, err := e.get(c.Variant, c.Len)
+	s, err := e.get(c.Variant, c.Layout, c.Len)
 	if err != nil {
 		return fail("harness/setup", err.Error(), nil)
 	}
@@ -298,11 +340,14 @@ func (e *applyEnv) replayApply(n int, c Case) Result {
 	if desired != full(c.Len+1) {
 		desc = fmt.Sprintf("rules %v, %d object(s) of %s, desired %s (no chain exists)", s.rules, c.N, full(1), desired)
 	}
+	if c.Layout == "split" {
+		desc += ", one hook with two conversion bindings for the CRD (odd steps / even steps)"
+	}
 
 	// (1) invocations: chain order, each on the previous output, nothing after a failed step
 	firstFailKind := ""
 	for _, k := range c.Outc {
-		if k == "exit1" || k == "empty" || k == "malformed" || k == "failmsg" {
+		if k == "exit1" || k == "empty" || k == "malformed" || k == "failmsg" || k == "failobj" {
 			firstFailKind = k
 			break
 		}
